@@ -30,7 +30,7 @@ Shapes ==
   \cup (IF "recharge" \in Eps THEN {Mk("recharge", s, "present", "absent", "absent", "none", "none", r, pr, nf) :
        s \in Supis, r \in Rparams, pr \in Priors, nf \in Notifys} ELSE {})
 
-ImsiLike(s) == s.supi \in {"imsi", "imsiempty", "slash"}     \* has the "imsi-" prefix
+ImsiLike(s) == s.supi = "imsi"      \* "imsi-" followed by 5..15 digits (an empty, over-long or path-like IMSI is rejected)
 
 \* outcome of the probe: [class, leaks]   class in {"2xx","4xx","500"}
 Outcome(s, kn) ==
@@ -40,7 +40,7 @@ Outcome(s, kn) ==
                 (IF "nfci" \in DEV_NilDerefs THEN [class |-> "500", leaks |-> DEV_CreateNoDefer] ELSE [class |-> "4xx", leaks |-> FALSE])
          ELSE IF s.pdu \in {"no_info", "no_slice", "no_snssai"} THEN
                 (IF "pdu" \in DEV_NilDerefs THEN [class |-> "500", leaks |-> DEV_CreateNoDefer] ELSE [class |-> "4xx", leaks |-> FALSE])
-         ELSE IF s.plmn \in {"shortmcc", "shortmnc", "emptymnc"} THEN
+         ELSE IF s.plmn \in {"shortmcc", "shortmnc", "emptymnc", "multibyte"} THEN
                 (IF "plmn" \in DEV_NilDerefs THEN [class |-> "500", leaks |-> DEV_CreateNoDefer] ELSE [class |-> "4xx", leaks |-> FALSE])
          ELSE [class |-> "2xx", leaks |-> FALSE]
     [] s.ep \in {"update", "release"} ->
